@@ -78,3 +78,54 @@ Theorem check_thresholds_sound : forall (mul : Q -> Q -> Q) lo hi g band ts,
   in_range lo hi g /\ Forall (fun t => in_range lo hi t /\ (band = true -> in_band mul g t)) ts.
 Proof. exact check_thresholds_sound_lemma. Qed.
 Print Assumptions check_thresholds_sound.
+
+(* ---------------------------------------------------------------- S1: crop-first non-interference *)
+From Centro Require Import Proofs.ThresholdCrop Model.OtsuQ Proofs.OtsuProofs.
+From Coq Require Import Permutation.
+
+(* any method of the shape G(image[mask]) — G arbitrary — returns the same value on two images that
+   agree on the mask *)
+Theorem crop_first_noninterference : forall (A T : Type) (G : list A -> T) H W mask a b,
+  agree A H W mask a b -> G (crop A H W a mask) = G (crop A H W b mask).
+Proof. exact crop_first_noninterference_lemma. Qed.
+Print Assumptions crop_first_noninterference.
+
+(* … through the block loop of get_adaptive_threshold: all block thresholds coincide (and the spline is a
+   function of them) *)
+Theorem crop_first_noninterference_adaptive : forall (A T : Type) (G : list A -> T) H W mask a b blocks,
+  agree A H W mask a b -> Forall (in_bounds H W) blocks ->
+  map (block_threshold A T G a mask) blocks = map (block_threshold A T G b mask) blocks.
+Proof. exact adaptive_noninterference_lemma. Qed.
+Print Assumptions crop_first_noninterference_adaptive.
+
+(* … per object: the threshold of object i depends only on the pixels of object i inside the mask *)
+Theorem crop_first_noninterference_per_object : forall (A T : Type) (G : list A -> T) H W labels mask a b i blk,
+  in_bounds H W blk -> agree A H W (object_mask labels mask i) a b ->
+  object_threshold A T G labels a mask (i, blk) = object_threshold A T G labels b mask (i, blk).
+Proof. exact per_object_noninterference_lemma. Qed.
+Print Assumptions crop_first_noninterference_per_object.
+
+Theorem crop_first_noninterference_object_loop : forall (A T : Type) (G : list A -> T) H W labels mask a b objs,
+  agree A H W mask a b -> Forall (fun ob => in_bounds H W (snd ob)) objs ->
+  map (object_threshold A T G labels a mask) objs = map (object_threshold A T G labels b mask) objs.
+Proof. exact per_object_loop_noninterference_lemma. Qed.
+Print Assumptions crop_first_noninterference_object_loop.
+
+(* ---------------------------------------------------------------- S5/S6: two-class Otsu over exact arithmetic *)
+Theorem otsu_perm_invariant : forall l l', Permutation l l' -> otsu l = otsu l'.
+Proof. exact otsu_perm_invariant_lemma. Qed.
+Print Assumptions otsu_perm_invariant.
+
+Theorem otsu_nan_invariant : forall l1 l2, otsu (l1 ++ None :: l2) = otsu (l1 ++ l2).
+Proof. exact otsu_nan_invariant_lemma. Qed.
+Print Assumptions otsu_nan_invariant.
+
+Theorem otsu_bracket : forall l lo hi,
+  filter_nan l <> [] -> (forall x, In (Some x) l -> (lo <= x <= hi)%Z) ->
+  inject_Z lo <= otsu l /\ otsu l <= inject_Z hi.
+Proof. exact otsu_bracket_lemma. Qed.
+Print Assumptions otsu_bracket.
+
+(* otsu_affine (otsu (a x + b) = a otsu x + b, a > 0) is NOT proved: it needs var (a x + b) = a^2 var x through
+   the Welford recurrences of running_variance (missing lemma: rv_aux_affine); the clause is checked on the
+   implementation only (exactly for power-of-two a and dyadic b, at 1e-9 otherwise). *)
